@@ -153,8 +153,87 @@ func c20Abandoned(run *ev.Run) {
 	}
 }
 
+// c20OutputSuppressed: output written after cancellation is suppressed, also for a nested evaluation (depth >= 2)
+// whose single native call performs very many writes (hexdump of a 4 MiB binary, ~18 MB of text). The
+// interrupt is sent when the marker line has been written; afterwards at most a small fraction of the dump may
+// still appear (bounded by bytes, not by time: each write re-checks the cancelled context).
+func c20OutputSuppressed(run *ev.Run) {
+	for depth := 0; depth <= 2; depth++ {
+		const prog = `"dumpmarker", ("0123456789abcdef" * 262144 | tobytes | hexdump)`
+		var o *vos.OS
+		if depth == 0 {
+			// plain CLI: the expression runs in an evaluation nested inside _main's own evaluation
+			o = vos.New("-n", prog)
+		} else {
+			o = vos.New("-n", "-i")
+			for d := 1; d < depth; d++ {
+				o.Lines = append(o.Lines, "1 | repl")
+			}
+			o.Lines = append(o.Lines, prog, `"after"`)
+			for d := 0; d < depth; d++ {
+				o.Lines = append(o.Lines, "^D")
+			}
+		}
+		o.Interrupt = make(chan struct{})
+		o.StdoutV.Limit = 1 << 20
+		var once sync.Once
+		var atInterrupt int64 = -1
+		var mu sync.Mutex
+		o.StdoutV.OnWrite = func(p []byte) {
+			// deliver the interrupt while the dump is in progress: once 256 KiB of it have been written
+			if o.StdoutV.TotalWritten() > 1<<18 {
+				once.Do(func() {
+					go func() {
+						select {
+						case o.Interrupt <- struct{}{}:
+							mu.Lock()
+							atInterrupt = o.StdoutV.TotalWritten()
+							mu.Unlock()
+						case <-time.After(20 * time.Second):
+						}
+					}()
+				})
+			}
+		}
+		done := make(chan struct{})
+		var pi *fqx.PanicInfo
+		go func() {
+			pi = guardStack(func() { o.RunMain(context.Background(), fqx.Registry()) })
+			close(done)
+		}()
+		select {
+		case <-done:
+		case <-time.After(180 * time.Second):
+			run.Inconclusive("output-suppression-session-timeout")
+			continue
+		}
+		run.Eval(1)
+		run.Count("interp:output-suppression-scenarios", 1)
+		if pi != nil {
+			run.Violation("interp:panic", "output-suppression session panicked: "+fmt.Sprint(pi.Value), nil)
+			continue
+		}
+		mu.Lock()
+		at := atInterrupt
+		mu.Unlock()
+		total := o.StdoutV.TotalWritten()
+		if at < 0 {
+			run.Inconclusive("interrupt-not-delivered")
+			continue
+		}
+		after := total - at
+		run.Count("interp:bytes-written-after-interrupt", after)
+		const fullDump = 17 << 20 // a complete hexdump of 4 MiB is > 17 MB of text
+		if after > fullDump/4 {
+			run.Violation(fmt.Sprintf("interp:output-after-cancellation:depth%d", depth), fmt.Sprintf("REPL depth %d: %d bytes of hexdump output were written after the interrupt had been taken (the whole dump is ~%d MB): output after cancellation is not suppressed", depth, after, fullDump>>20), nil)
+		}
+		run.Distinct(fmt.Sprintf("interp-output-suppression:%d", depth))
+	}
+}
+
 func c20Interp(run *ev.Run) {
 	c20Abandoned(run)
+	c20OutputSuppressed(run)
 	n := run.Pick(24, 400)
 	for id := 0; id < n; id++ {
 		rng := gen.New(run.Seed).Fork(0xC2030000 + uint64(id))
